@@ -14,7 +14,10 @@ def verify(rep, jobs, L, phase):
         ops = ["c%d:p:cc" % j.get("n", 512), "o%d" % j["start"]]
         for kind, c, ls in j["calls"]:
             text = hexec.esc("\n".join(L[l][0] for l in ls) + "\n")
-            ops.append("N%d:%s" % (c, text) if kind == "N" else "A" + text)
+            if kind == "n":
+                ops.append("n%d:%s" % (c, hexec.esc(j["path"])))
+            else:
+                ops.append("N%d:%s" % (c, text) if kind == "N" else "A" + text)
         hs.append("\t".join(ops))
     res = hexec.run(hs, variant="asan")
     for j, obs in zip(jobs, res):
@@ -27,7 +30,7 @@ def verify(rep, jobs, L, phase):
         if hexec.is_crash(obs):
             disc.add("crash")
         else:
-            asm = [hexec.Asm(o) for o in obs if o[:2] in ("A:", "N:")]
+            asm = [hexec.Asm(o) for o in obs if o[:2] in ("A:", "N:", "n:")]
             pos = j["start"]
             for a, (kind, c, ls) in zip(asm, j["calls"]):
                 want = "".join(L[l][1] for l in ls)
@@ -40,7 +43,7 @@ def verify(rep, jobs, L, phase):
                     disc.add("bytes")
                 if a.hi > max(a.off, 0) or (a.lo != -1 and a.lo < pos):
                     disc.add("outside")
-                if kind == "N":
+                if kind in ("N", "n"):
                     wc = models.count_breaks(pos, ls, c)
                     if a.dest != wc:
                         disc.add("count")
@@ -111,6 +114,28 @@ def run(tier, seed):
         verify(rep, jobs, L, "repeated")
         rep.bounds["repeated_call_histories"] = len(jobs)
         rep.states += len(jobs)
+    # the file entry point of the counting call (same model); the result variable is poisoned before every call
+    if not rep.expired():
+        import os
+        import shutil
+        tmp = hexec.tmpdir()
+        try:
+            jobs = []
+            k = 0
+            for c in (-1, 0, 1, 2, 4, 16):
+                for p in (0, 3):
+                    for seq in itertools.product(alpha[:5], repeat=3):
+                        path = os.path.join(tmp, "p%d.asm" % k)
+                        k += 1
+                        with open(path, "w") as f:
+                            f.write("".join(L[l][0] + "\n" for l in seq))
+                        jobs.append({"start": p, "calls": [("n", c, list(seq))], "path": path})
+                        nontriv += models.count_breaks(p, seq, c) > 0
+            verify(rep, jobs, L, "file")
+            rep.bounds["file_entry_cases"] = len(jobs)
+            rep.states += len(jobs)
+        finally:
+            shutil.rmtree(tmp, ignore_errors=True)
     rep.distinct_n = int(nontriv)
     rep.sample({"start": 3, "chunk": 4, "lengths": [3, 5], "model_count": models.count_breaks(3, [3, 5], 4)})
     rep.sample({"start": 0, "chunk": 16, "lengths": [10, 10], "model_count": models.count_breaks(0, [10, 10], 16)})
